@@ -659,3 +659,11 @@ seed("c20-setcol-rows", "C20", OPS, 'if self.cols <= col { panic!( "Matrix range
 
 seed("c12-degree-drop-removed", "C12", PA, "            if lead + r.coeffs[ top ] == lead { r.coeffs[ top ] = T::zero(); }\n", "", "degree-drops", "the original defect")
 seed("c12-absorption-wrong-lead", "C12", PA, "            if lead + r.coeffs[ top ] == lead { r.coeffs[ top ] = T::zero(); }", "            if r.coeffs[ top ] + r.coeffs[ top ] == r.coeffs[ top ] { r.coeffs[ top ] = T::zero(); }", "degree-drops", "tests the residue against itself: only true for zero")
+
+# ---------------------------------------------------------------- later additions
+seed("c03-fillband-neg-unchecked", "C03", OPS, "            if (i as usize) < self.cols &&  i >= 0 {", "            if (i as usize) < self.cols {", "accessor/fill_band", "negative column wraps to a huge usize; only the upper test remains")
+seed("c03-filltridiag-swapped", "C03", OPS, "        self.fill_band( -1, lower );\n        self.fill_diag( diag );\n        self.fill_band( 1, upper );", "        self.fill_band( 1, lower );\n        self.fill_diag( diag );\n        self.fill_band( -1, upper );", "accessor/fill_tridiag")
+seed("c05-resize-sup-n", "C05", TR, "        self.sup = Vector::<T>::new(n - 1, T::zero());\n        self.n = n;", "        self.sup = Vector::<T>::new(n, T::zero());\n        self.n = n;", "invariant/resize")
+seed("c05-conj-main-unconj", "C05", TR, "        let main = self.main.conj();", "        let main = self.main.clone();", "operators/conj")
+seed("c19-apply-axes-swapped", "C19", ME2, "                self.vars[ i * self.ny + j ][ var ] = func( x, y );", "                self.vars[ i * self.ny + j ][ var ] = func( y, x );", "assign-apply/apply")
+seed("c19-assign-skips-var0", "C19", ME2, "                for v in 0..self.nvars {\n                    self.vars[ i * self.ny + j ][ v ] = element.clone();", "                for v in 1..self.nvars {\n                    self.vars[ i * self.ny + j ][ v ] = element.clone();", "assign-apply/assign")
